@@ -5,7 +5,7 @@ import subprocess
 
 # id -> (claimed?, technique, level text, level note, design section)
 T = {
-    "C01": ("Sym operation-log monitor + polynomial identity test over GF(p); exact-rational / integer / dyadic-float reference-model monitor",
+    "C01": ("Sym operation-log monitor + polynomial identity test over GF(p); exact-rational / integer / dyadic-float reference-model monitor; IEEE special-value monitor (NaN, infinities, signed zeros) on f32/f64",
             "Every Mul / element-wise operator impl for Mat2/3/4 in both layouts is executed on free symbols and its complete logged dataflow compared with the textbook sums of products (identity test in all 8/18/32 entries), plus thousands of exact value cases per impl; held-on-observed-executions, not a proof.",
             "by parametricity one traced execution of the generic impl speaks for all inputs of the Sym monomorphisation; transfer to f32/f64/ints assumes vek has no specialisation and is cross-checked by native sweeps"),
     "C02": ("Sym operation-log monitor, structural per-lane comparison; native-type per-lane reference sweeps",
@@ -14,16 +14,16 @@ T = {
     "C03": ("Tag data-movement monitor: row-major, column-major and abstract model run side by side over random API programs; Miri and valgrind memcheck on the unsafe array conversions and slice views with a heap-owning element",
             "Random programs over the layout-agnostic matrix API are executed on a row-major value, a column-major value and an abstract model; after every step all three are compared through the raw public representation; flat views, Display (also with format specifications) and GL flag included; an index just outside the matrix must panic in both layouts.",
             "the abstract model is written from the documentation; element identity is carried by opaque tokens so any misplaced element is seen regardless of values"),
-    "C04": ("exact-rational (Q) and GF(p) monitors with registered angle tokens; f64 sampling with derived tolerance",
+    "C04": ("exact-rational (Q) and GF(p) monitors with registered angle tokens; f32/f64 sampling with derived tolerance (axes of any length, almost-unit lengths included)",
             "Rotation builders are executed on exact unit-circle points (c,s) and rational-norm axes (scale factors from 2^-53 to 2^30, float axes over 20 / 120 decades): orthogonality, det=+1, fixed axis, right-handed sense, additivity, scale-invariance in the axis, Mat3/Mat4/Quaternion/Vec2 agreement are checked exactly; arbitrary float angles/axes with tolerance.",
             "identities are exact facts in Q[..]/(c^2+s^2-1); float tier tolerances are 64 eps scaled, ill-conditioned cases are inconclusive"),
     "C05": ("Sym/GF(p) polynomial identity monitors for the algebra; exact-rational unit quaternions; f64 sampling for acos-based extraction",
             "Hamilton algebra laws are decided as polynomial identities on the logged product; rotation of vectors, composition, from-to rotation (incl. exactly antiparallel pairs through both branches) on exact rational inputs and on f32/f64 incl. exactly opposite integer pairs with a non-power-of-two ratio; angle-axis on floats incl. exactly +-identity.",
-            "near-antiparallel / near-identity float cases are classed ill-conditioned, never violations"),
+            "float cases within sqrt(eps) of antiparallel are classed ill-conditioned, never violations; angle-axis extraction is judged at 512 eps everywhere (the extraction problem is well conditioned), small angles and |w| above 1 included"),
     "C06": ("GF(p)/Sym identity test for determinants and the general inverse; exact-rational monitor for the branching affine inverses",
             "Determinants vs the Leibniz expansion as polynomial identities; M*inv(M)=inv(M)*M=I as a rational-function identity at random field points and on structured exact rational matrices (singular sub-blocks, sparse, triangular); fast inverses on T*R[*S] by construction.",
             "matrices with det=0 are outside the domain; the affine fast paths are judged only on matrices that are T*R[*S] by construction"),
-    "C07": ("Sym/GF(p) identity monitors for constructors; exact step-list model for builder chains (all chains up to length 3 enumerated, longer sampled)",
+    "C07": ("Sym/GF(p) identity monitors for constructors; exact step-list model for builder chains (all chains up to length 3 enumerated, longer sampled); f32/f64 reference-model monitors for builders on structured receivers, point/direction products far from the origin and Transform conversion with orientations a float can hold",
             "Constructors act on points/directions by definition (polynomial identities); every chained *_ed builder equals pre-multiplication; chains apply steps in call order against an independent step list; Transform->Mat4 acts as position + orientation*(scale.p).",
             "rotations inside chains use registered exact angles"),
     "C08": ("exact-rational monitor: the eight view-volume corners through the real matrix and homogeneous divide; f32/f64 corner monitor with a derived tolerance for all 21 constructors",
@@ -47,7 +47,7 @@ T = {
     "C14": ("Sym/GF(p) polynomial identity monitors with forward-mode derivatives over the logged evaluate",
             "evaluate == Bernstein polynomial in free control points and free t; evaluate_derivative == d/dt of the logged evaluate; split re-parametrises; elevation, matrix form, reversal, flips, matrix*curve commute; an exact value tier with coincident control points at t = 0, 1, inside and outside; quarter circle radius on floats.",
             "identities are decided at random points of GF(2^61-1)"),
-    "C15": ("exact-rational monitor on curves constructed per branch of the root finder; f64 grid sampling; search/length monotonicity monitors",
+    "C15": ("exact-rational monitor on curves constructed per branch of the root finder; f64 grid sampling (nearly parabolic cubics included); search/length monotonicity monitors; bounded-progress monitor: a budgeted f64 element type counts vek's scalar operations and unwinds a search that exceeds 2e7 of them",
             "Extrema parameters in [0,1] and optimal, inflections are derivative zeros inside the interval, boxes in curve coordinates containing and touching the curve, search result no worse than coarse samples, length bounds and refinement monotonicity.",
             "curves are integrated from chosen derivatives so true extrema are known exactly"),
     "C16": ("exact-rational monitors with squared-distance, parametric-minimisation and Cramer-solve oracles; f32/f64 for pi formulas",
@@ -56,7 +56,7 @@ T = {
     "C17": ("exhaustive 2^24 sweeps of every (value, lower, upper) triple of i8/u8/Wrapping against an i32 model, panic-equivalence monitor; stratified wide ints; float boundary sampling",
             "clamp/is_between/wrapped/wrapped_between/pingpong/delta_angle against their range laws for every 8-bit input, documented panics required exactly; wide integers and their Wrapping forms; floats incl. the exact half-turn boundary in degrees and NaN / infinities against the closed-interval test.",
             "cases whose mathematically correct result is not representable are outside the property (as stated)"),
-    "C18": ("ownership-ledger monitor (Own) over enumerated iterator histories with the iterator's own cursors read through a cfg hook; Miri and valgrind memcheck on the same workload",
+    "C18": ("ownership-ledger monitor (Own) over enumerated iterator histories (ending by drop, by a consuming adaptor whose callback may unwind, or by drop with a panicking element destructor) with the iterator's own cursors read through a cfg hook; Miri and valgrind memcheck on the same workload",
             "All pull sequences over {next,next_back} with observers and drop at every prefix for dims 2..8, covering sets visiting every (front,back) state for 16..64; every element yielded or dropped exactly once, never observed after being yielded; conversions transfer each element once; slice views alias storage.",
             "Miri interprets the real vek code; native runs skip raw illegal frees so the monitor survives to report"),
     "C19": ("Tag data-movement monitor against a table written from the documentation; exhaustive 256 shuffle masks; Sym identity for the embedding/multiplication commutation law",
